@@ -17,6 +17,9 @@ logging.disable(logging.CRITICAL)
 UNIT = 1.0          # one model time unit
 TIMEOUT_UNITS = 2
 
+# server messages may talk about anything, e.g. URLs that look like message endpoints
+SRV_TEXT = "d \u00e9 https://example.com/mcp/readme.md /messages/?session_id=zzz"
+
 ANNOUNCE_FORMS = [
     "event: endpoint\ndata: /messages/?session_id=abc123\n\n",
     "event: endpoint\r\ndata: /messages/?session_id=abc123\r\n\r\n",
@@ -99,7 +102,15 @@ def run_scripts(cases):
             if r == "r202":
                 return httpx.Response(202, content=b"")
             if r == "r500":
-                return httpx.Response(500, content=b"internal error")
+                # any status other than 200 / 202, with whatever body such an answer comes with
+                form = rng.randrange(4)
+                if form == 0:
+                    return httpx.Response(500, content=b"internal error")
+                if form == 1:
+                    return httpx.Response(404, headers={"content-type": "application/json"}, content=b'{"detail":"Not Found"}')
+                if form == 2:
+                    return httpx.Response(400, headers={"content-type": "application/json"}, content=b'["not", "a", "message"]')
+                return httpx.Response(503, headers={"content-type": "application/json"}, content=b'')
             return httpx.Response(202, content=b"")      # acknowledgement of a notification
 
         def ev(e, **kw):
@@ -108,7 +119,8 @@ def run_scripts(cases):
             evs.append(d)
 
         def event_bytes(obj):
-            form = rng.choice(["event: message\ndata: %s\n\n", "event: message\r\ndata: %s\r\n\r\n"])
+            # an event without a type is a message event too (the default type)
+            form = rng.choice(["event: message\ndata: %s\n\n", "event: message\r\ndata: %s\r\n\r\n", "data: %s\n\n", ": keep-alive\ndata: %s\n\n"])
             return (form % json.dumps(obj, ensure_ascii=False, separators=(",", ":"))).encode("utf-8")
 
         got = []
@@ -146,7 +158,7 @@ def run_scripts(cases):
                     ev("PostReply", r=h["r"])
                 elif a == "ServerMsg":
                     srvn[0] += 1
-                    obj = {"jsonrpc": "2.0", "method": "notifications/message", "params": {"marker": srvn[0], "level": "info", "data": "d é"}}
+                    obj = {"jsonrpc": "2.0", "method": "notifications/message", "params": {"marker": srvn[0], "level": "info", "data": SRV_TEXT}}
                     if srvn[0] % 2 == 0:
                         obj = {"jsonrpc": "2.0", "id": "srv-%d" % srvn[0], "method": "roots/list", "params": {"marker": srvn[0]}}
                     for c in chunked(event_bytes(obj), rng):
@@ -255,7 +267,7 @@ def run_scripts(cases):
                     mk = d[part].get("marker", mk)
             if d.get("method") is not None:
                 if d.get("method") == "notifications/message":
-                    intact = (d.get("params") or {}).get("data") == "d \u00e9"
+                    intact = (d.get("params") or {}).get("data") == SRV_TEXT
                 else:
                     intact = d.get("method") == "roots/list" and d.get("params") == {"marker": mk}
                 items.append(["srv", "srv", mk if isinstance(mk, int) else 0, True, bool(intact)])
